@@ -117,7 +117,6 @@ extern size_t mpt_stream_write(MPT_STRUCT(stream) *stream, size_t count, const v
 			
 			/* fill with zeros */
 			if (!data) {
-				part = stream->_wd.data.len;
 				mpt_qpush(&stream->_wd.data, curr, 0);
 				
 				if (MPT_stream_flush(flags) == 0) {
